@@ -170,6 +170,44 @@ theorem encrypted_wellformed {sc : Scheme} {subs : List Nat} {f g : Frag} (h : e
 
 example : ∃ g, encryptFrag .cbcs [3, 1] exFrag = some g := ⟨_, rfl⟩
 
+/-- the length of the IV the caller passes (8 or 16 bytes, anything else is refused) does not enter the bookkeeping:
+    the sizes that are checked and the sizes that are written are those of the 16-byte IV stored per sample (cenc) -/
+theorem callerIV_irrelevant {ivLen : Nat} {sc : Scheme} {subs : List Nat} {f g : Frag}
+    (h : encryptFragIV ivLen sc subs f = some g) : (ivLen = 8 ∨ ivLen = 16) ∧ encryptFrag sc subs f = some g := by
+  unfold encryptFragIV at h
+  split at h
+  · exact ⟨by assumption, h⟩
+  · cases h
+
+/-- **the auxiliary-information sizes and offset describe the per-sample entries actually written**, whatever IV length
+    the caller used: every saiz entry is the byte length of that sample's senc entry (IV as stored + 2 + 6 per
+    sub-sample entry when sub-samples are used) and fits the one-byte field without wrapping; the saio offset is 16
+    bytes into the senc box (at `q`), and offset + the sum of the saiz entries is exactly the end of the senc box.
+    A fragment with a sample whose entry would need more than 255 bytes is refused (`encryptFragIV … = none`):
+    see the examples below. -/
+theorem aux_describes_written {ivLen : Nat} {sc : Scheme} {subs : List Nat} {f g : Frag}
+    (h : encryptFragIV ivLen sc subs f = some g) :
+    ∃ t a s p q,
+      trafsAt g.children 8 = [(p, addProt a ((q + 16 : Nat) : Int) s t)] ∧
+      (q, TrafChild.senc s) ∈ childOffsets (addProt a ((q + 16 : Nat) : Int) s t).children (p + 8) ∧
+      (∀ i, (hi : i < subs.length) → a.entry i = sampleInfoSize sc.ivLen subs[i] ∧ a.entry i ≤ 255) ∧
+      (q + 16) + ((List.range subs.length).map a.entry).sum = q + s.size := by
+  obtain ⟨t, r, a, s, p, q, _, _, _, h4, h5, _, _, h8, h9, _⟩ := encrypted_wellformed (callerIV_irrelevant h).2
+  refine ⟨t, a, s, p, q, h4, h5, fun i hi => ⟨(h9 i hi).1, (h9 i hi).1 ▸ (h9 i hi).2⟩, ?_⟩
+  have : (List.range subs.length).map a.entry = subs.map (sampleInfoSize sc.ivLen) := by
+    apply List.ext_getElem (by simp)
+    intro i h1 h2
+    simp only [List.length_map, List.length_range] at h1
+    simp [(h9 i h1).1]
+  rw [this, h8]
+  omega
+
+/-- 8-byte caller IV, cenc: 39 sub-sample entries fit (16 + 2 + 234 = 252), 40 do not (258): refused, as with a
+    16-byte IV; cbcs (no IV stored): 42 fit (254), 43 do not (260); other IV lengths are refused -/
+example : (encryptFragIV 8 .cenc [39, 1] exFrag).isSome = true ∧ encryptFragIV 8 .cenc [40, 1] exFrag = none ∧
+    encryptFragIV 16 .cenc [40, 1] exFrag = none ∧ (encryptFragIV 8 .cbcs [42, 1] exFrag).isSome = true ∧
+    encryptFragIV 8 .cbcs [43, 1] exFrag = none ∧ encryptFragIV 12 .cenc [1, 1] exFrag = none := by decide
+
 /-- the same per traf for `encryptAll` (any number of trafs): each traf with parameters gets the three boxes, its saio
     offset 16 bytes into its own senc box -/
 theorem encryptAll_trafs (ps : Nat → Option (Scheme × List Nat)) (f g : Frag) (henc : encryptAll ps f = some g) :
